@@ -9,7 +9,7 @@ LEVEL = "exploration"
 SHARDS = {"quick": 4, "thorough": 16}
 ANCHORS = [("qartod.py", "flat_line_test"), ("qartod.py", "flat_line_test.<locals>.rolling_window"),
            ("qartod.py", "flat_line_test.<locals>.run_test")]
-RULE = ("sweep n in 0..14 (0..24 thorough) x step D in {1, 60, 900} x (suspect, fail) durations from {0, D/2, D, 1.5D, "
+RULE = ("sweep n in 0..14 (0..24 thorough) x step D in {1, 60, 900} (and, thinner, 86400, 90000, 864000) x (suspect, fail) durations from {0, D/2, D, 1.5D, "
         "2D, 2.9D, 3D, (n-1)D, nD, (n+3)D} x plateaus of k-1..k+2 steps at start/middle/end of a unit ramp with "
         "+-1/4 ripple x tolerance below / equal to / above the plateau range and 0 x missing values inside windows x "
         "time carriers; each call judged per point by the window model, and every strided view that is read is "
@@ -36,8 +36,10 @@ def run(ctx) -> None:
     nmax = ctx.pick(14, 24)
     reps = ctx.pick(2, 4)
     for n in range(nmax + 1):
-        for D in (1, 60, 900):
+        for D in (1, 60, 900, 86400, 90000, 864000):
             pool = sorted({0, D / 2, D, 1.5 * D, 2 * D, 2.9 * D, 3 * D, (n - 1) * D, n * D, (n + 3) * D} - {-D})
+            if D >= 86400:  # sampling steps of a day and more (daily / 25-hourly / 10-daily records): a thinner sweep
+                pool = sorted({0, D, 2 * D, 3 * D, (n - 1) * D} - {-D})
             for st in pool:
                 for ft in pool:
                     i += 1
